@@ -96,6 +96,9 @@ def ann_names(op):
 def dense_digest(op):
     """Digest of to_dense(); a raising to_dense() is a stable fingerprint 'raises X'."""
     try:
+        if int(op.shape[0]) * int(op.shape[1]) > 4_000_000:
+            # too large to materialise: digest of the parameter arrays instead
+            return "large:" + jhash([(p, arr_digest(a)) for p, a in walk_arrays(op)])
         d = op.to_dense()
         return arr_digest(d)
     except Exception as e:  # noqa
